@@ -62,7 +62,9 @@ fn classify(e: &minicbor::decode::Error) -> String {
     format!("other:{}", d.replace(' ', "_"))
 }
 fn show_res<T>(r: Result<T, minicbor::decode::Error>, pos: usize, show: impl FnOnce(T) -> String) -> String {
-    match r { Ok(v) => format!("ok:{}@{}", show(v), pos), Err(e) => format!("err:{}@{}", classify(&e), pos) }
+    // EP= (compared across configurations only, by checks/C20.py cross_check): the position the error reports for itself
+    match r { Ok(v) => format!("ok:{}@{}", show(v), pos),
+              Err(e) => format!("err:{}@{}\tEP={}", classify(&e), pos, e.position().map(|p| p.to_string()).unwrap_or_else(|| "none".into())) }
 }
 fn hb(b: &[u8]) -> String { format!("h{}", hex_or_dash(b)) }
 
